@@ -221,3 +221,34 @@ theorem decodeLoop_encAligned {σ : Type} (p2p : Bool) (maxAlloc : Nat) (wt : Bo
           simp [List.append_assoc]
 
 end Pool.Dec
+
+namespace Pool.Dec
+
+theorem writeVarInt_length_le (v : Nat) : (writeVarInt v).length ≤ 9 := by
+  unfold writeVarInt; repeat' split
+  all_goals simp [toBE_length]
+
+/-- crude size bound of an aligned encoding: 18 bytes of type+length varints plus the value, per present record -/
+def boundAligned : List (Option Bytes) → Nat
+  | [] => 0
+  | none :: vs => boundAligned vs
+  | some v :: vs => 18 + v.length + boundAligned vs
+
+theorem encAligned_length_le {σ : Type} (rs : List (Rec σ)) (vs : List (Option Bytes)) :
+    (encAligned rs vs).length ≤ boundAligned vs := by
+  induction rs generalizing vs with
+  | nil => cases vs <;> simp [encAligned]
+  | cons r rs ih =>
+    cases vs with
+    | nil => simp [encAligned]
+    | cons v vs =>
+      cases v with
+      | none => simpa [encAligned, boundAligned] using ih vs
+      | some v =>
+        simp only [encAligned, encodeRecord, boundAligned, List.length_append]
+        have h1 := writeVarInt_length_le r.typ
+        have h2 := writeVarInt_length_le v.length
+        have := ih vs
+        omega
+
+end Pool.Dec
